@@ -195,8 +195,14 @@ Section Proofs.
       { apply (mapM_ok_impl (ser_val re_match sser oser sc sc0 item) (fast_val sser ofast e fc item) (ord_val oi item) l r);
           [|exact Hord|exact Hm].
         intros x d Hx Hd. apply (IH sc sc0 x d Hs Hsc Hsc0 Hfast Hx Hd). }
-      destruct item as [[f| | |id b]| | | | | |]; try (rewrite Hg; exact H).
-      destruct b; [cbn [safe_tf leaf_ok] in Hs; apply andb_true_iff in Hs as [_ Hs]; discriminate|rewrite Hg; exact H].
+      assert (Hc : match item with
+                   | TRef c => if class_is_fast e c then Ok tt else Raise AttributeError
+                   | _ => Ok tt
+                   end = Ok tt).
+      { destruct item; try reflexivity. cbn [refs] in Hfast. rewrite (Hfast cls (or_introl eq_refl)). reflexivity. }
+      destruct item as [[f| | |id b]| | |c| | |]; cbn [bind]; try (rewrite Hg; exact H).
+      + destruct b; [cbn [safe_tf leaf_ok] in Hs; apply andb_true_iff in Hs as [_ Hs]; discriminate|rewrite Hg; exact H].
+      + rewrite Hc. cbn [bind]. rewrite Hg. exact H.
     - destruct v; try discriminate.
       destruct (mapM (ser_val re_match sser oser sc sc0 item) l) as [r|ex] eqn:Hm; cbn [bind] in H; [|discriminate].
       assert (Hg : mapM (fast_val sser ofast e fc item) l = Ok r).
